@@ -124,6 +124,10 @@ package builder
 // sits one level deeper.
 //@ func (*data/builder.shard).add
 //@ prop C02 C10
+//@ at call mapupdate#0 assert an-occupied-bucket-is-only-ever-replaced-by-a-sub-shard: upd_map == s.children && (upd_had ==> upd_value.shard != nil && upd_value.hamtLink == nil)
+//@ at call (*data/builder.shard).add#2 assert the-link-that-was-in-the-bucket-moves-into-the-new-sub-shard: callee_lnk.PBLink == current.hamtLink.PBLink
+//@ at call (*data/builder.shard).add#3 assert the-new-link-goes-into-the-new-sub-shard-too: callee_lnk.PBLink == lnk.PBLink && callee_recv == mapget(s.children, bucket).shard
+//@ at call (*data/builder.shard).add#1 assert an-existing-sub-shard-takes-the-link: callee_lnk.PBLink == lnk.PBLink && callee_recv == current.shard
 //@ at call (data/builder.hashBits).Slice#1 assert bucket-is-the-hash-bits-of-this-depth: callee_offset == s.depth * s.sizeLg2 && callee_width == s.sizeLg2
 //@ at call (*data/builder.shard).add#2 assert split-bucket-is-one-level-deeper: callee_recv.depth == s.depth + 1 && callee_recv.size == s.size && callee_recv.sizeLg2 == s.sizeLg2 && callee_recv.width == s.width && callee_recv.hasher == s.hasher
 //@ domain bounded-depth: 0 <= s.depth && s.depth <= 64
@@ -147,6 +151,9 @@ package builder
 //@ inst monotone-so-far: l: l
 //@ loop 0 invariant no-failure-so-far: storeFailed == old(storeFailed)
 //@ at call data/builder.BuildUnixFSDirectoryEntry#1 assert child-shard-stored-before-parent: stored(callee_hash)
+//@ at call data/builder.BuildUnixFSDirectoryEntry#1 assert a-sub-shard-adds-the-size-its-build-returned-to-the-total: totalSize == loophead(totalSize) + sz
+//@ at call data/builder.BuildUnixFSDirectoryEntry#2 assert an-entry-adds-its-own-size-to-the-total: totalSize == loophead(totalSize) + uint64(sz)
+//@ at return assert size-is-the-childrens-total-plus-the-own-block: err == nil ==> result1 == totalSize + sz
 //@ at call data/builder.BuildUnixFSDirectoryEntry#1 assert child-shard-link-carries-the-size-its-build-returned: callee_size == int64(sz) && callee_hash == ipldLnk
 //@ at call data/builder.BuildUnixFSDirectoryEntry#2 assert entry-link-keeps-its-size-and-target: callee_size == e.hamtLink.PBLink.Tsize.v.x
 //@ at call data/builder.BuildUnixFSDirectoryEntry#1 assert child-shard-link-name-is-just-the-bucket-prefix: len(callee_name) == s.width
@@ -267,6 +274,7 @@ package builder
 // C02 / C08: every shard block carries its bitmap in the UnixFS Data field, also when no bucket is
 // occupied (the reader refuses a shard without it).
 //@ func data/builder.Data
+//@ calls github.com/ipld/go-ipld-prime/fluent/qp.MapEntry
 //@ prop C02 C09
 //@ at call github.com/ipld/go-ipld-prime/fluent/qp.MapEntry#1 assert sets-the-Data-field: callee_k == "Data"
 //@ at call github.com/ipld/go-ipld-prime/fluent/qp.Bytes#1 assert with-the-bytes-given: callee_p == dataBytes
@@ -280,19 +288,23 @@ package builder
 // C09 (encode side) / C11: each setter of the UnixFS message builder assembles exactly one entry,
 // under the schema's field name, with the value it was given (Permissions: its low twelve bits).
 //@ func data/builder.DataType
-//@ prop C09 C11
+//@ calls github.com/ipld/go-ipld-prime/fluent/qp.MapEntry
+//@ prop C01 C07 C09 C11
 //@ may_panic
 //@ at call github.com/ipld/go-ipld-prime/fluent/qp.MapEntry#1 assert sets-the-DataType-field: callee_k == "DataType"
 //@ at call github.com/ipld/go-ipld-prime/fluent/qp.Int#1 assert with-the-value-given: callee_i == dataType
 //@ func data/builder.FileSize
-//@ prop C09 C11
+//@ calls github.com/ipld/go-ipld-prime/fluent/qp.MapEntry
+//@ prop C01 C07 C09 C11
 //@ at call github.com/ipld/go-ipld-prime/fluent/qp.MapEntry#1 assert sets-the-FileSize-field: callee_k == "FileSize"
 //@ at call github.com/ipld/go-ipld-prime/fluent/qp.Int#1 assert with-the-value-given: callee_i == int64(fileSize)
 //@ func data/builder.HashType
+//@ calls github.com/ipld/go-ipld-prime/fluent/qp.MapEntry
 //@ prop C09 C11
 //@ at call github.com/ipld/go-ipld-prime/fluent/qp.MapEntry#1 assert sets-the-HashType-field: callee_k == "HashType"
 //@ at call github.com/ipld/go-ipld-prime/fluent/qp.Int#1 assert with-the-value-given: callee_i == int64(hashType)
 //@ func data/builder.Fanout
+//@ calls github.com/ipld/go-ipld-prime/fluent/qp.MapEntry
 //@ prop C09 C11
 //@ at call github.com/ipld/go-ipld-prime/fluent/qp.MapEntry#1 assert sets-the-Fanout-field: callee_k == "Fanout"
 //@ at call github.com/ipld/go-ipld-prime/fluent/qp.Int#1 assert with-the-value-given: callee_i == int64(fanout)
@@ -301,6 +313,7 @@ package builder
 //@ at call github.com/ipld/go-ipld-prime/fluent/qp.MapEntry#1 assert sets-the-Seconds-field: callee_k == "Seconds"
 //@ at call github.com/ipld/go-ipld-prime/fluent/qp.Int#1 assert with-the-value-given: callee_i == seconds
 //@ func data/builder.Permissions
+//@ calls github.com/ipld/go-ipld-prime/fluent/qp.MapEntry
 //@ prop C09
 //@ at call github.com/ipld/go-ipld-prime/fluent/qp.MapEntry#1 assert sets-the-Mode-field: callee_k == "Mode"
 //@ at call github.com/ipld/go-ipld-prime/fluent/qp.Int#1 assert with-the-low-twelve-bits: callee_i == int64(old(mode) & 4095)
@@ -310,11 +323,12 @@ package builder
 //@ at call github.com/ipld/go-ipld-prime/fluent/qp.MapEntry#1 assert sets-the-FractionalNanoseconds-field: callee_k == "FractionalNanoseconds"
 //@ at call github.com/ipld/go-ipld-prime/fluent/qp.Int#1 assert with-the-value-given: callee_i == int64(nanoseconds) && 0 <= callee_i && callee_i <= 999999999
 //@ func data/builder.BlockSizes
-//@ prop C09 C11
+//@ calls github.com/ipld/go-ipld-prime/fluent/qp.MapEntry
+//@ prop C01 C07 C09 C11
 //@ at call github.com/ipld/go-ipld-prime/fluent/qp.MapEntry#1 assert sets-the-BlockSizes-field: callee_k == "BlockSizes"
 //@ at call github.com/ipld/go-ipld-prime/fluent/qp.List#1 assert one-entry-per-size: callee_sizeHint == int64(len(blockSizes))
 //@ func data/builder.BlockSizes$1
-//@ prop C09 C11
+//@ prop C01 C07 C09 C11
 //@ at call github.com/ipld/go-ipld-prime/fluent/qp.Int#1 assert each-entry-is-that-size: callee_i == int64(bs)
 
 // C02 / C11 / C18: a directory entry is the dag-pb link {Hash: the target's link, Name: the entry's
@@ -322,7 +336,7 @@ package builder
 // the order of the three fields), and nothing else is assembled.
 //@ func data/builder.BuildUnixFSDirectoryEntry
 //@ prop C02 C11 C18
-//@ at call (github.com/ipld/go-ipld-prime/datamodel.NodeAssembler).AssignLink#0 assert the-target-goes-under-Hash: asmFor(callee_recv) == "Hash" && callee_a0 == hash
-//@ at call (github.com/ipld/go-ipld-prime/datamodel.NodeAssembler).AssignInt#0 assert the-size-goes-under-Tsize: asmFor(callee_recv) == "Tsize" && callee_a0 == size
-//@ at call (github.com/ipld/go-ipld-prime/datamodel.NodeAssembler).AssignString#0 assert the-name-goes-under-Name: asmOf(callee_recv) == nil ==> asmFor(callee_recv) == "Name" && callee_v == name
+//@ at call (github.com/ipld/go-ipld-prime/datamodel.NodeAssembler).AssignLink#0 assert the-target-goes-under-Hash: asmFor(callee_recv) == "Hash" && callee_a0 == old(hash)
+//@ at call (github.com/ipld/go-ipld-prime/datamodel.NodeAssembler).AssignInt#0 assert the-size-goes-under-Tsize: asmFor(callee_recv) == "Tsize" && callee_a0 == old(size)
+//@ at call (github.com/ipld/go-ipld-prime/datamodel.NodeAssembler).AssignString#0 assert the-name-goes-under-Name: asmOf(callee_recv) == nil ==> asmFor(callee_recv) == "Name" && callee_v == old(name)
 //@ at call (github.com/ipld/go-ipld-prime/datamodel.NodeAssembler).AssignString#0 assert only-the-three-link-fields-are-keys: asmOf(callee_recv) != nil ==> callee_v == "Hash" || callee_v == "Name" || callee_v == "Tsize"
